@@ -1284,49 +1284,47 @@ func signerFacts(g *gen, line func(string, ...any)) {
 				return 0
 			}
 			est := sf.sk.signer.EstimateSize()
-			// a packet signed by it, decoded
-			nm := enc.Name{enc.NewStringComponent(8, "facts")}
-			var wire enc.Wire
-			what := "data"
-			if sf.forInt {
-				what = "int"
-				res, err := sp.MakeInterest(nm, &ndn.InterestConfig{}, enc.Wire{[]byte{1, 2, 3}}, sf.sk.signer)
-				if err != nil {
-					line("SFACT %s err build", sf.name)
-					return
-				}
-				wire = res.Wire
-			} else {
-				res, err := sp.MakeData(nm, &ndn.DataConfig{}, enc.Wire{[]byte{1, 2, 3}}, sf.sk.signer)
-				if err != nil {
-					line("SFACT %s err build", sf.name)
-					return
-				}
-				wire = res.Wire
-			}
-			obs, sig, cov, _ := decode(what, enc.NewBufferReader(join(wire)))
-			if obs == "err" || obs == "panic" || sig == nil {
-				line("SFACT %s err decode", sf.name)
-				return
-			}
-			// which announced type does the validator of this key kind accept (signature value and covered bytes genuine)?
-			vtype := "none"
-			for t := 0; t <= 8; t++ {
-				if ok, have := sf.sk.validate(cov, typedSig{sig, ndn.SigType(t)}); have && ok {
-					if vtype != "none" {
-						vtype = "several"
-						break
-					}
-					vtype = strconv.Itoa(t)
-				}
-			}
-			// do the signatures it produces fit its estimate?  (16 signings: ECDSA lengths vary)
-			fits := uint(len(sig.SigValue())) <= est
-			for k := 0; k < 16; k++ {
-				if sv, err := sf.sk.signer.ComputeSigValue(cov); err != nil || uint(len(sv)) > est {
+			// do the signatures it produces fit its estimate?  (17 signings: ECDSA lengths vary)
+			fits := true
+			for k := 0; k < 17; k++ {
+				if sv, err := sf.sk.signer.ComputeSigValue(enc.Wire{[]byte("facts"), {byte(k)}}); err != nil || uint(len(sv)) > est {
 					fits = false
 				}
 			}
+			// a packet signed by it, decoded, offered to the validator of this key kind under every type code: which one is accepted?
+			vtype := "none"
+			func() {
+				nm := enc.Name{enc.NewStringComponent(8, "facts")}
+				var wire enc.Wire
+				what := "data"
+				if sf.forInt {
+					what = "int"
+					res, err := sp.MakeInterest(nm, &ndn.InterestConfig{}, enc.Wire{[]byte{1, 2, 3}}, sf.sk.signer)
+					if err != nil {
+						return
+					}
+					wire = res.Wire
+				} else {
+					res, err := sp.MakeData(nm, &ndn.DataConfig{}, enc.Wire{[]byte{1, 2, 3}}, sf.sk.signer)
+					if err != nil {
+						return
+					}
+					wire = res.Wire
+				}
+				obs, sig, cov, _ := decode(what, enc.NewBufferReader(join(wire)))
+				if obs == "err" || obs == "panic" || sig == nil {
+					return
+				}
+				for t := 0; t <= 8; t++ {
+					if ok, have := sf.sk.validate(cov, typedSig{sig, ndn.SigType(t)}); have && ok {
+						if vtype != "none" {
+							vtype = "several"
+							break
+						}
+						vtype = strconv.Itoa(t)
+					}
+				}
+			}()
 			line("SFACT %s %d %d %d %d %d %s %s %d", sf.name, int(c.Type), est, b01(c.KeyName != nil),
 				b01(c.Nonce != nil || c.SeqNum != nil || c.SigTime != nil), b01(c.NotBefore != nil || c.NotAfter != nil), sf.vname, vtype, b01(fits))
 		}()
